@@ -1,8 +1,8 @@
-\* exhaustive: the repaired design never leaks (4 kinds x 4 spellings x 7 credential shapes x which fields have the shape, every fault position, depth 6)
+\* negative control (MUST violate NoLogLeak): the request validation refuses an odd-shaped string with an error that quotes the value - credentials included; the text is logged by Create and handleError
 SPECIFICATION Spec
 CHECK_DEADLOCK FALSE
 VIEW view
-INVARIANTS TypeOK Contract
+INVARIANTS TypeOK NoLogLeak NoRespLeak
 CONSTANTS
   Kinds = {"token", "userpass", "kafka", "kafka_off"}
   CreateFaults = {0, 1, 2, 3, 4, 5, 6, 95, 97, 98, 99}
@@ -22,4 +22,4 @@ CONSTANTS
   MaskDecoded = TRUE
   ReadFailIsError = TRUE
   Shapes = {"plain", "lead_sp", "trail_sp", "tab_in", "trail_tab", "trail_lf", "bad_utf8"}
-  RejectQuotesValue = FALSE
+  RejectQuotesValue = TRUE
